@@ -422,12 +422,6 @@ impl<'a> Socket<'a> {
                     continue;
                 }
 
-                if p.rcode() == Rcode::NXDomain {
-                    net_trace!("rcode NXDomain");
-                    q.set_state(State::Failure);
-                    continue;
-                }
-
                 let payload = p.payload();
                 let (mut payload, question) = match Question::parse(payload) {
                     Ok(x) => x,
@@ -452,6 +446,13 @@ impl<'a> Socket<'a> {
                         net_trace!("dns question name malformed");
                         return;
                     }
+                }
+
+                // Only a response to *this* question may fail the query.
+                if p.rcode() == Rcode::NXDomain {
+                    net_trace!("rcode NXDomain");
+                    q.set_state(State::Failure);
+                    continue;
                 }
 
                 let mut addresses = Vec::new();
